@@ -11,6 +11,25 @@ K_NOTE_KERNEL = ("Trusted: Kani 0.68/CBMC 6.11/cadical; the symbolic kernel in e
 K_NOTE = "Trusted: Kani 0.68/CBMC 6.11/cadical; the short reference functions in the harness; bounds as stated; x86_64 only."
 
 CHECKS = {
+    "C08": dict(engine="K", technique=K_TECH, design_ref="§4 C08",
+                text=("Bounded model checking of tiny-start's memcpy/memmove/memset/memcmp/bcmp with symbolic length, both "
+                      "misalignments, overlap distance, fill byte and all buffer bytes; the C definition is asserted at a symbolic index over "
+                      "the whole 64-byte buffer, so a write outside the destination is a failure."),
+                note=K_NOTE + " Quick: n <= 24 (memmove n <= 18, split in three overlap cases); thorough: n <= 40 (memmove <= 26). Larger n outside."),
+    "C12": dict(engine="K", technique=K_TECH, design_ref="§4 C12",
+                text=("Bounded model checking of ~20 descriptor-creating operations of tiny-std above a symbolic kernel with a descriptor "
+                      "table: the failing system call (index, errno) is a free variable; afterwards open set == initial set + descriptors "
+                      "owned by the result, no double close, no foreign close, no use after close."),
+                note=K_NOTE_KERNEL + " One injected failure per run in quick (two in thorough); scenario list in evidence; openpty, "
+                     "getpwuid_r, Stdio::Null use constants Kani cannot encode and are not covered."),
+    "C17": dict(engine="K", technique=K_TECH, design_ref="§4 C17",
+                text=("Bounded model checking of the ring hand-over from an ARBITRARY valid ring state (symbolic 32-bit head/tail bases "
+                      "incl. the wrap, symbolic pending counts): L symbolic steps of application and kernel actions with ghost sequence "
+                      "stamps prove exactly-once, in-order consumption/reaping and no early slot reuse. An induction step over ring "
+                      "states within the size bound, not a proof."),
+                note=K_NOTE + " Source hook `verif-hooks` (constructor only). Ring sizes 1,2,4 (8 in thorough), 3-4 steps (5-6 thorough). "
+                     "One known finding (completion slot released before the caller reads it) is excluded from the main harnesses and "
+                     "checked separately."),
     "C09": dict(engine="K", technique=K_TECH, design_ref="§4 C09",
                 text=("Bounded model checking of each rusl wrapper with the value returned by its `syscall` instruction as a free 64-bit "
                       "variable: Err iff the value is in [-4095,-1], errno exact and positive, success value carried unchanged, exactly one "
@@ -74,7 +93,7 @@ def main():
             "guard": "cargo feature `verif-hooks` on rusl",
             "enable": "harness crates under engine_k depend on rusl with features = [\"verif-hooks\"] (path dependency on /repo/rusl)",
             "baseline_off_cmd": "cd /repo && (cargo nextest run --workspace --no-fail-fast --offline || cargo test --workspace --no-fail-fast --offline)",
-            "source_commits": [],
+            "source_commits": ["f2070f1"],
             "add_only": True,
         },
         "engines": [
